@@ -30,6 +30,24 @@ PROFILE = Profile(
     weights={STEP: 10, PUB: 10, SUB: 8, CONNECT: 5, OPEN: 2, DISCONNECT: 1, CLOSE: 1, READY: 1, SETNAME: 1},
 )
 
+# the same routing oracle while deliveries to OTHER subscribers fail (a subscriber that left abruptly is discovered on the
+# write side: EPIPE / ECONNRESET / first write succeeds; injected failure at a byte offset): the remaining recipients of
+# that very message must still get it exactly once and unmodified
+from vlib.mgen import FAULT  # noqa: E402
+
+ROUTING_FAULTS = Profile(
+    name="routing-faults",
+    oracles={"routing", "framing"},
+    weights={STEP: 10, PUB: 12, SUB: 7, CONNECT: 4, OPEN: 2, DISCONNECT: 1, CLOSE: 5, FAULT: 2, READY: 1},
+    types=[1234, 5000, 33, 8, 32, 0, 9999],
+    sizes=[0, 8, 64, 4096, 1, 7],
+    close_modes=["epipe", "reset", "first-ok", "silent"],
+    dts=[0.0],
+    max_conns=8,
+    p_logger=4,
+)
+FAULT_CFGS = [{"timecode": False, "timing": True, "log": "silent"}, {"timecode": True, "timing": False, "log": "silent"}]
+
 CFGS = [
     {"timecode": False, "timing": True, "log": "error"},
     {"timecode": True, "timing": True, "log": "error"},
@@ -45,6 +63,16 @@ def shard(seed: int, n_examples: int, max_len: int) -> Result:
         ci, raws = v
         cfg = CFGS[ci]
         w = mgen.run_history(cfg, PROFILE, raws, "C01")
+        harvest(w, cfg)
+
+    def body_faults(v):
+        ci, raws = v
+        cfg = FAULT_CFGS[ci % 2]
+        w = mgen.run_history(cfg, ROUTING_FAULTS, raws, "C01")
+        harvest(w, cfg)
+        res.count("histories-with-write-failures" if w.stats.get("write-failure") else "histories-faults-profile")
+
+    def harvest(w, cfg):
         for s in w.shapes:
             res.shape(*s)
         for k, n in w.stats.items():
@@ -54,7 +82,8 @@ def shard(seed: int, n_examples: int, max_len: int) -> Result:
         if w.stats.get("pub-nontrivial") and len(res.samples) < 3:
             res.sample({"cfg": cfg, "ops": w.trace[:60]})
 
-    hyp_run(body, st.tuples(st.integers(0, len(CFGS) - 1), mgen.raw_ops(PROFILE, max_len)), seed, n_examples, res)
+    hyp_run(body, st.tuples(st.integers(0, len(CFGS) - 1), mgen.raw_ops(PROFILE, max_len)), seed, n_examples * 3 // 4, res)
+    hyp_run(body_faults, st.tuples(st.integers(0, 1), mgen.raw_ops(ROUTING_FAULTS, max_len, min_clients=3)), seed + 7, n_examples // 4, res)
     return res
 
 
